@@ -11,6 +11,7 @@ mod common;
 mod drive;
 mod model;
 mod props;
+mod statewatch;
 
 use common::{Ctx, Input, Rep, Tier};
 use std::time::Instant;
@@ -35,6 +36,7 @@ fn main() {
     let mut rd: Option<String> = None;
     let mut rc = String::new();
     let mut escalate = false;
+    let mut statics: Option<statewatch::Watch> = None;
     let mut i = 2;
     while i < args.len() {
         let a = args[i].as_str();
@@ -78,6 +80,10 @@ fn main() {
                 escalate = true;
                 i += 1;
             }
+            "--statics" => {
+                statics = statewatch::Watch::parse(&need(v));
+                i += 2;
+            }
             "--replay-clause" => {
                 rc = need(v);
                 i += 2;
@@ -85,7 +91,7 @@ fn main() {
             _ => usage(),
         }
     }
-    let ctx = Ctx { tier, seed, leg, threads, escalate };
+    let ctx = Ctx { tier, seed, leg, threads, escalate, statics };
     drive::install_silent_panic_hook();
     let t0 = Instant::now();
     let rep: Rep = if let Some(k) = rk {
